@@ -27,9 +27,11 @@ type spec struct {
 	Ends string
 	// Early: the router has two handlers and the Close calls arrive while it is still subscribing them (inside the first
 	// Subscribe call of Run\'s start-up)
-	Early   bool
-	C       int
-	DPORSec float64
+	Early bool
+	// EmptyTopic: the handler publishes to the empty topic (a topic like any other for a handler that has a publisher)
+	EmptyTopic bool
+	C          int
+	DPORSec    float64
 }
 
 func (s spec) name() string {
@@ -42,6 +44,9 @@ func (s spec) name() string {
 	}
 	if s.Early {
 		g += "/close-during-startup"
+	}
+	if s.EmptyTopic {
+		g += "/empty-publish-topic"
 	}
 	return fmt.Sprintf("script/%s/N%d/closers%d%s", s.Handler, s.N, s.Closers, g)
 }
@@ -83,7 +88,11 @@ func body(sp spec) {
 		return
 	}
 	never := make(chan struct{})
-	hnd := r.AddHandler("h", "in", sub, "out", pub, func(m *message.Message) ([]*message.Message, error) {
+	ptopic := "out"
+	if sp.EmptyTopic {
+		ptopic = ""
+	}
+	hnd := r.AddHandler("h", "in", sub, ptopic, pub, func(m *message.Message) ([]*message.Message, error) {
 		vs.Observe("start %s", m.UUID)
 		switch sp.Handler {
 		case "yield":
@@ -350,6 +359,7 @@ func init() {
 		add(reg.Thorough, 40, spec{Handler: h, N: 2, Closers: 1, C: 1}, 2, 0)
 	}
 	add(reg.Quick, 10, spec{Handler: "yield", N: 1, Closers: 1, Gated: true, C: 1}, 2, 0)
+	add(reg.Quick, 5, spec{Handler: "instant", N: 1, Closers: 1, EmptyTopic: true, C: 0}, 1, 0)
 	// Close arriving inside the start-up (two handlers, a slow first Subscribe): with the start-up concurrent to the Close
 	// calls even the search without preemptions exceeds a million executions, so the quick tier runs the one schedule in
 	// which the Close calls get as far as they can during the slow Subscribe, and the thorough tier the bounded search
